@@ -343,7 +343,6 @@ fn pivot_checks(r: &mut Report) {
                 Ok(Ok((idx, centers))) => {
                     r.check(centers.len() + 1 == idx.len() && idx.iter().all(|&i| i < pts.len()), "ball pivot: one centre per pair of consecutive hull indices", dsc);
                     if centers.len() + 1 != idx.len() || idx.iter().any(|&i| i >= pts.len()) { continue; }
-                    r.check(idx.len() >= pts.len(), "ball pivot: the ball visits every point of the ring", || format!("{} indices {:?}", dsc(), idx));
                     for (k, c) in centers.iter().enumerate() {
                         let d0 = d(&pts[idx[k]], c);
                         let d1 = d(&pts[idx[k + 1]], c);
